@@ -13,3 +13,9 @@ Definition grow_p (cmp : Z -> Z -> bool) (vec set : list Z) : list Z * list Z :=
 (* _set.insert(v): position and "inserted" flag *)
 Definition set_ins (cmp : Z -> Z -> bool) (vec set : list Z) (v : Z) : list Z * list Z * Z * bool :=
   let '(l, j, b) := set_insert cmp set v in (vec, l, Z.of_nat j, b).
+(* _set.find(k) as a position, _set.count(k) as a boolean, _set.erase(k), _vec.erase(it) *)
+Definition set_find (cmp : Z -> Z -> bool) (set : list Z) (k : Z) : Z := Z.of_nat (fs_find cmp set k).
+Definition set_contains (cmp : Z -> Z -> bool) (set : list Z) (k : Z) : bool := fs_contains cmp set k.
+Definition set_erase_key (cmp : Z -> Z -> bool) (vec set : list Z) (v : Z) : list Z * list Z * Z :=
+  let '(l, n) := fs_erase_key cmp set v in (vec, l, Z.of_nat n).
+Definition vec_erase (vec : list Z) (i : Z) : list Z := remove_at (Z.to_nat i) vec.
